@@ -784,7 +784,7 @@ def r10(R):
 @rule('C11.R11', 'an object that was new in the transaction is disowned '
       'WITH its state: it is never ghostified first (a ghost without a '
       'database cannot get its state back, and "can be added again later" '
-      'needs the state)', props=['C14', 'C12'], min_instances=3)
+      'needs the state)', props=['C14', 'C12'], min_instances=4)
 def r11(R):
     conn = R.prog.cls(CONN)
     # (a) tpc_abort: created objects are disowned before the modified ones
@@ -893,6 +893,80 @@ def r11(R):
     for v in vs[:1]:
         R.violation(v.node, v.message, g3, v.path,
                     key='savepoint data discarded before created disowned')
+    # (d) _invalidate_creating: a created object that is a ghost when it is
+    #     disowned (a savepoint stored it, the cache let go of its state)
+    #     gets its state back first -- or is known not to be a ghost
+    f4 = R.method(conn, '_invalidate_creating')
+    g4, b4, F4 = R.cfg(f4, conn, max_depth=0)
+    R.instance('Connection._invalidate_creating ghosts')
+    disowns = [0]
+
+    def exempt_if(e, truth):
+        """atom `e` having the truth value `truth` says: not a ghost, or a
+        blob (whose state is its file)"""
+        if isinstance(e, ast.UnaryOp) and isinstance(e.op, ast.Not):
+            return exempt_if(e.operand, not truth)
+        if isinstance(e, ast.Compare) and len(e.ops) == 1 and \
+                isinstance(e.left, ast.Attribute) and \
+                e.left.attr == '_p_changed' and isinstance(
+                    e.comparators[0], ast.Constant) and \
+                e.comparators[0].value is None and \
+                isinstance(e.ops[0], (ast.Is, ast.IsNot)):
+            return (isinstance(e.ops[0], ast.Is) == truth) is False
+        if isinstance(e, ast.Call) and isinstance(e.func, ast.Name) and \
+                e.func.id == 'isinstance' and any(
+                    isinstance(x, ast.Name) and x.id == 'Blob'
+                    for x in ast.walk(e)):
+            return truth
+        return False
+
+    def edge4(node, st, lab, tgt):
+        if node.kind == 'for':
+            return False
+        if node.kind == 'test' and lab in ('T', 'F'):
+            if any(exempt_if(e, truth)
+                   for e, truth in implied_atoms(node.ast, lab)):
+                return True
+            t = node.ast
+            # a conjunction that fails: some conjunct is false
+            if lab == 'F' and isinstance(t, ast.BoolOp) and isinstance(
+                    t.op, ast.And) and all(exempt_if(c, False)
+                                           for c in t.values):
+                return True
+            if lab == 'T' and isinstance(t, ast.BoolOp) and isinstance(
+                    t.op, ast.Or) and all(exempt_if(c, True)
+                                          for c in t.values):
+                return True
+        for op in F4.ops(node):
+            if op.kind == 'call' and op.path is not None and \
+                    op.path[-1] in ('_p_activate', 'setstate'):
+                return True              # also when the load fails
+        return st
+
+    def at4(node, st):
+        for op in F4.ops(node):
+            if op.kind == 'del' and op.path is not None and \
+                    op.path[-1] == '_p_jar':
+                disowns[0] += 1
+                if not st:
+                    return Violation(
+                        '_invalidate_creating disowns a created object that '
+                        'may be a ghost (a savepoint stored it, and '
+                        'savepoint()\'s own cacheGC -- or cacheMinimize, '
+                        '_p_deactivate -- let go of its state) without '
+                        'giving it its state back first: without a '
+                        'database the object can never load it; it is '
+                        'empty for the application, and adding it again '
+                        'fails at commit')
+        return st
+
+    vs, stats = explore(g4, False, at=at4, edge=edge4)
+    R.count(stats)
+    R.require(disowns[0] or vs, '_invalidate_creating no longer disowns '
+              'objects')
+    for v in vs[:1]:
+        R.violation(v.node, v.message, g4, v.path,
+                    key='created ghost disowned without its state')
 
 
 # ------------------------------------------------------------------ C11.R12
@@ -913,12 +987,16 @@ def r12(R):
     # the list, by role: what tpc_abort hands to the cache's invalidate
     ta = R.method(cls, 'tpc_abort')
     lists = set()
-    for c in walk_local(ta.node):
-        if isinstance(c, ast.Call) and dotted(c.func) and \
-                dotted(c.func)[-1] == 'invalidate' and c.args:
-            d_ = dotted(c.args[0])
-            if d_ and len(d_) == 2 and d_[0] == 'self':
-                lists.add(d_[1])
+    ga, ba, Fa = R.cfg(ta, cls, max_depth=0)
+    for nid in ga.reachable():
+        nd = ga.nodes[nid]
+        for op in Fa.ops(nd):
+            if op.kind == 'call' and op.path is not None and \
+                    op.path[-1] == 'invalidate' and isinstance(
+                        op.ast, ast.Call) and op.ast.args:
+                for k, v in provenance(op.ast.args[0], nd.frame, Fa):
+                    if k == 'path' and len(v) == 2 and v[0] == 'self':
+                        lists.add(v[1])
     R.require(lists, 'tpc_abort no longer invalidates a list of stored '
               'objects')
     R.instance('Connection.abort', reverted_by_tpc_abort=sorted(lists))
